@@ -35,6 +35,9 @@ CHECKS = {
  "C05": dict(level="exploration", technique="exhaustive enumeration of terms, single deviations and complete per-language Unicode tables x the language/style/verbosity lattice; oracle scans every returned string for internal markers",
              text="All spine terms to depth 2 and the trigger terms in all 45 speech configurations, single degenerate/invisible-operator deviations of depth-1 terms in every language, one token context for every key of every language's unicode.yaml and unicode-full.yaml (18.8k characters) and for characters in no table, plus capital-letter/override/impairment preference sets: speech and overview must be Ok, non-empty iff there is visible content, and free of private-use characters, [[ ]], raw invisible operators and markup; four navigation reads are scanned too.",
              note="Input alphabets contain no private-use characters. Navigation reads are only scanned for markers.", design="§4 C05"),
+ "C07": dict(level="exploration", technique="exhaustive enumeration of each code's complete Unicode tables x token contexts, and of terms x highlight styles x node ids followed by position queries; oracle checks the output alphabet",
+             text="Every key (every member of every range) of the six codes' unicode.yaml/unicode-full.yaml (42k character cases) and all mathvariants x token classes; terms of the grammar with author ids x 4 highlight styles x {no node, unknown node, root, each author id}, then node-from-braille in and out of range and the requests repeated: cell codes emit only U+2800-28FF and no dots 7-8 unless a known node is highlighted; text codes emit printable text without internal markers; non-empty iff visible content.",
+             note="Pass-through of characters a code does not define and expressions using elements the code's rule file has no rule for are outside the guarantee (both decided from the rule files at run time). Cells with dots 7-8 that the rule file itself writes as content (Nemeth line separator) are not highlight.", design="§4 C07"),
 }
 PENDING = {}
 
